@@ -512,6 +512,9 @@ func TestVerif_C07(t *testing.T) {
 
 	var rc c07Case
 	if r.ReplayCase(&rc) {
+		if rc.Kind == "sdseq" {
+			return // a case of unit sdseq (C07_sdseq_test.go)
+		}
 		e := c07Open(r)
 		defer e.l.Close()
 		o := e.run(r, &rc)
